@@ -12,8 +12,8 @@ below; the control structure must be built from `if/elif/else`, `while True:`, `
   (a) prints `translate_buffered: REFUSED: <method>: line N: <construct>`,
   (b) replaces BufGen.v by a file that does not compile and carries the message,
   (c) exits with status 2.
-feed_data (`self._buffer.extend(data)`), the `buffer` property, `__init__`'s two fields and the set of methods of the
-class are checked literally.
+feed_data (`self._buffer.extend(data)`), the `buffer` property, aclose, extra_attributes, the `_buffer` field, the set of
+methods of the class, and the delegating classes BufferedByteStream / BufferedConnectable are checked literally.
 
 Slots: parameters `max_bytes` (receive, receive_until) / `nbytes` -> PAR, `delimiter` -> DELIM; a local bound by an
 await of the wrapped stream's receive() or by `b''` -> chunk; a local bound by a slice of self._buffer (optionally
@@ -296,6 +296,27 @@ def generate() -> str:
             refuse("class", cls, f"set of methods differs: {methods}")
     literal(cls, "feed_data", "self._buffer.extend(data)")
     literal(cls, "buffer", "return bytes(self._buffer)")
+    literal(cls, "aclose", "await self.receive_stream.aclose(); self._closed = True")
+    literal(cls, "extra_attributes", "return self.receive_stream.extra_attributes")
+    # the full-duplex wrapper and the connectable add nothing but delegation: checked literally, so that the receive side
+    # of a BufferedByteStream IS the class translated above
+    for cname, bases, want in (
+            ("BufferedByteStream", "BufferedByteReceiveStream, ByteStream",
+             {"__init__": "super().__init__(stream); self._stream = stream", "send_eof": "await self._stream.send_eof()",
+              "send": "await self._stream.send(item)"}),
+            ("BufferedConnectable", "ByteStreamConnectable",
+             {"__init__": "self.connectable = connectable",
+              "connect": "stream = await self.connectable.connect(); return BufferedByteStream(stream)"})):
+        c2 = next((n for n in mod.body if isinstance(n, ast.ClassDef) and n.name == cname), None)
+        if c2 is None:
+            refuse("module", mod, f"class {cname} missing")
+        if ", ".join(ast.unparse(b) for b in c2.bases) != bases:
+            refuse(cname, c2, f"bases differ: {[ast.unparse(b) for b in c2.bases]}")
+        names = sorted(n.name for n in c2.body if isinstance(n, (ast.FunctionDef, ast.AsyncFunctionDef)))
+        if names != sorted(want):
+            refuse(cname, c2, f"set of methods differs: {names}")
+        for mname, body in want.items():
+            literal(c2, mname, body)
     fields = [ast.unparse(s) for s in cls.body if isinstance(s, ast.AnnAssign)]
     if not any(f.startswith("_buffer: bytearray = field(init=False, default_factory=bytearray)") for f in fields):
         refuse("class", cls, f"_buffer field differs: {fields}")
